@@ -18,10 +18,13 @@ import (
 
 	"github.com/CosmWasm/wasmd/x/wasm"
 	wasmtypes "github.com/CosmWasm/wasmd/x/wasm/types"
+	"github.com/cosmos/cosmos-sdk/baseapp"
 	codectypes "github.com/cosmos/cosmos-sdk/codec/types"
 	cryptocodec "github.com/cosmos/cosmos-sdk/crypto/codec"
 	"github.com/cosmos/cosmos-sdk/crypto/keys/ed25519"
 	"github.com/cosmos/cosmos-sdk/crypto/keys/secp256k1"
+	servertypes "github.com/cosmos/cosmos-sdk/server/types"
+	"github.com/cosmos/cosmos-sdk/store"
 	"github.com/cosmos/cosmos-sdk/store/rootmulti"
 	storetypes "github.com/cosmos/cosmos-sdk/store/types"
 	sdk "github.com/cosmos/cosmos-sdk/types"
@@ -109,11 +112,19 @@ type GenesisOpts struct {
 	Mint        *minttypes.Params
 	Rns         *rnstypes.Params
 	Oracle      *oracletypes.Params
+	// NodeConfig is operator-local configuration (what app.toml / start flags carry: minimum-gas-prices, pruning,
+	// caches, event indexing ...). It must not influence what block execution returns or commits.
+	NodeConfig map[string]interface{}
 	// Time is the genesis time (zero value: GenesisTime).
 	Time time.Time
 	// Raw replaces whole module sections after everything else (C19's import side).
 	Raw map[string]json.RawMessage
 }
+
+// nodeConfig serves operator-local settings through the AppOptions interface the application constructor reads.
+type nodeConfig map[string]interface{}
+
+func (n nodeConfig) Get(k string) interface{} { return n[k] }
 
 // Chain is an assembled application after InitChain.
 type Chain struct {
@@ -193,8 +204,22 @@ func New(opts GenesisOpts) *Chain {
 
 	db := dbm.NewMemDB()
 	enc := app.MakeEncodingConfig()
+	var appOpts servertypes.AppOptions = app.EmptyBaseAppOptions{}
+	var baseOpts []func(*baseapp.BaseApp)
+	if opts.NodeConfig != nil {
+		appOpts = nodeConfig(opts.NodeConfig)
+		if v, ok := opts.NodeConfig["minimum-gas-prices"].(string); ok {
+			baseOpts = append(baseOpts, baseapp.SetMinGasPrices(v))
+		}
+		if v, ok := opts.NodeConfig["index-events"].([]string); ok {
+			baseOpts = append(baseOpts, baseapp.SetIndexEvents(v))
+		}
+		if v, ok := opts.NodeConfig["inter-block-cache"].(bool); ok && v {
+			baseOpts = append(baseOpts, baseapp.SetInterBlockCache(store.NewCommitKVStoreCacheManager()))
+		}
+	}
 	a := app.NewJackalApp(log.NewNopLogger(), db, nil, true, map[int64]bool{}, home, 0, enc,
-		wasm.EnableAllProposals, app.EmptyBaseAppOptions{}, nil)
+		wasm.EnableAllProposals, appOpts, nil, baseOpts...)
 	cdc := a.AppCodec()
 
 	gs := app.NewDefaultGenesisState()
